@@ -408,6 +408,13 @@ def run(tier):
         if not f.qname.startswith("mtest::"):
             continue        # the tokenizer's own local iterators belong to C35; its helpers reach mtest through summaries
         loc = rel(f.short_loc(sid)) if sid in f.stmts else rel(f.loc)
+        if why.startswith("assigned to"):
+            key = "SINGULAR-ITERATOR@%s#%s" % (f.qname, var)
+            if key not in seen:
+                seen.add(key)
+                rep.fail(key, "%s: in %s the iterator '%s', declared without a value, is %s: the parser then continues from a singular iterator "
+                         "(the next read is a null or wild dereference)" % (loc, f.qname, var, why))
+            continue
         if why == "incremented":
             # UNCHECKED-INCREMENT: '++p' where p may already be the end (typically after a helper that consumed a token): the iterator
             # goes past end(), the next 'p == end' test does not fire and the following read is out of the vector
